@@ -441,6 +441,36 @@ theorem good_step {s s' : FSt} {a : FAct} (hg : Good s) (hs : fstep s a = some s
       cases hs
       have hf : s.phase f ≠ .none_ := by rw [hp]; simp
       have hnd : s.phase f ≠ .dead := by rw [hp]; simp
+      have hnc := h.not_ceased hf hnd
+      have hnt : f ∉ sc.termd := fun e => hnd (h.termd f e)
+      have hst : f ∈ sc.started := by rw [h.started, hp]; rfl
+      have hstep : scanStep sc (.cancel f) = .ok { sc with termd := f :: sc.termd } := by
+        simp [scanStep, hnc, hnt, hst]
+      refine ⟨_, scan_step_ok hscan hstep, ?_⟩
+      refine finv_phase h _ hf hnd ?_ ?_ ?_ rfl
+      · intro j; by_cases hj : j = f
+        · subst hj; simp [sent, hst]
+        · simp [hj]
+      · intro j hj
+        simp only [List.mem_cons] at hj
+        rcases hj with e | e
+        · exact Or.inr ⟨e, rfl⟩
+        · exact Or.inl e
+      · intro m
+        have := cntAt_setPhase s f .dead (h.lt_nflow hf) m
+        simp only [hp, cur] at this
+        have hi := h.inside m
+        simp at this
+        show _ ≤ List.count m sc.inside
+        omega
+    · cases hs
+  | quit f =>
+    simp only [fstep] at hs
+    split at hs
+    · next n hp =>
+      cases hs
+      have hf : s.phase f ≠ .none_ := by rw [hp]; simp
+      have hnd : s.phase f ≠ .dead := by rw [hp]; simp
       have hst : f ∈ sc.started := by rw [h.started, hp]; rfl
       have hstep : scanStep sc .other = .ok sc := by
         simp [scanStep, Trace.isFlowTrace]
